@@ -14,6 +14,21 @@
 #include <syslog.h>
 #include <time.h>
 #include <sys/stat.h>
+#include "mmap_guard.h"     /* an index that runs off a ring rebuilt from a file faults instead of reading a neighbour */
+
+/* ---- the blackbox logger must stay inside the chunk it reserved: what it commits is never more than what it asked for ---- */
+void *__real_qb_rb_chunk_alloc(qb_ringbuffer_t *rb, size_t len);
+void *__wrap_qb_rb_chunk_alloc(qb_ringbuffer_t *rb, size_t len);
+int32_t __real_qb_rb_chunk_commit(qb_ringbuffer_t *rb, size_t len);
+int32_t __wrap_qb_rb_chunk_commit(qb_ringbuffer_t *rb, size_t len);
+static size_t reserved_len; static int reserved_valid;
+void *__wrap_qb_rb_chunk_alloc(qb_ringbuffer_t *rb, size_t len) { void *p = __real_qb_rb_chunk_alloc(rb, len); reserved_len = len; reserved_valid = p != NULL; return p; }
+int32_t __wrap_qb_rb_chunk_commit(qb_ringbuffer_t *rb, size_t len)
+{
+	if (reserved_valid && len > reserved_len) vp_fail("the blackbox logger committed a record of %zu bytes into a chunk it had reserved %zu bytes for", len, reserved_len);
+	reserved_valid = 0;
+	return __real_qb_rb_chunk_commit(rb, len);
+}
 
 static int mode;                 /* 0 damage, 1 round trip after every record */
 static int depth, byteflip;
@@ -315,15 +330,18 @@ static void run_damage(void)
 		}
 	} else if (kind == 1 || kind == 2) {
 		int w = vp_choose(10, "word"), v;
-		int32_t vals[12]; uint32_t truev, ws;
+		int32_t vals[15]; uint32_t truev, ws;
 		memcpy(&ws, f + 20, 4);
 		memcpy(&truev, f + 4 * w, 4);
 		vals[0] = 0; vals[1] = 1; vals[2] = -1; vals[3] = 0x7fffffff; vals[4] = (int32_t)0x80000000; vals[5] = (int32_t)truev + 1; vals[6] = (int32_t)truev - 1;
 		vals[7] = (int32_t)ws; vals[8] = (int32_t)len; vals[9] = (int32_t)(len / 4); vals[10] = (int32_t)ws + 1; vals[11] = 13;
-		v = vp_choose(12, "value");
+		/* the same ring position one, two and three laps further: the magic word is looked up modulo the ring size,
+		   so only such a value gets a ring pointer past the "is there a chunk" test */
+		vals[12] = (int32_t)(truev + ws); vals[13] = (int32_t)(truev + 2 * ws); vals[14] = (int32_t)(truev + 3 * ws);
+		v = vp_choose(15, "value");
 		memcpy(f + 4 * w, &vals[v], 4);
 		if (kind == 2) {
-			int w2 = 5 + vp_choose(5, "second word"), v2 = vp_choose(12, "second value");
+			int w2 = 5 + vp_choose(5, "second word"), v2 = vp_choose(15, "second value");
 			memcpy(f + 4 * w2, &vals[v2], 4);
 			/* keep the header hash consistent in half of the cases so that the values get past the hash check */
 			if (vp_choose(2, "fix hash")) { uint32_t a, bb, c2, d, h; memcpy(&a, f + 20, 4); memcpy(&bb, f + 24, 4); memcpy(&c2, f + 28, 4); memcpy(&d, f + 32, 4); h = a + bb + c2 + d; memcpy(f + 36, &h, 4); }
@@ -448,7 +466,9 @@ static void init(void)
 int main(int argc, char **argv)
 {
 	static struct vp_harness h = {
-#ifdef VP_C11_TWIN
+#if defined(VP_C14_TWIN)
+		.property = "C14", .name = "c14_bb_logger", .level = "exploration",
+#elif defined(VP_C11_TWIN)
 		.property = "C11", .name = "c11_bb_newest", .level = "model_checking",
 #else
 		.property = "C15", .name = "c15_bb_dump", .level = "exploration",
@@ -458,7 +478,7 @@ int main(int argc, char **argv)
 			"1024/2048/4096 bytes; after EVERY record the blackbox is written to a file, printed with qb_log_blackbox_print_from_file and "
 			"the captured output parsed and compared field by field (priority, function, line, tags, timestamp, text) with the newest "
 			"records, which must form an unbroken run ending with the last one.  round_trip=0: three valid dumps (1, 3, 14 wrapped records) "
-			"damaged by every truncation length (<256 bytewise, then every 16th, last 64), every header word x 12 boundary values (with and "
+			"damaged by every truncation length (<256 bytewise, then every 16th, last 64), every header word x 15 boundary values (among them each ring pointer 1, 2 and 3 laps further) (with and "
 			"without a repaired hash), pairs of header words, every field of the oldest record x 10 values, structurally arbitrary small "
 			"files, optionally single byte flips; the print call must return, ASan-clean, leaving /dev/shm as it was",
 		.assumptions = { "one forked batch per 100 files, a crash is attributed to the file being printed", "wall clock replaced by a counter", NULL },
